@@ -1439,7 +1439,7 @@ class FnTranslator:
                         return T("bool")
                     if m in ("iter", "to_vec", "clone", "collect", "into_boxed_slice"):
                         return rt
-                    if m == "max" and not e[3]:
+                    if m in ("max", "min") and not e[3]:
                         return T("Option", rt[2][0])
                     if m in ("all", "any"):
                         return T("bool")
@@ -1740,9 +1740,9 @@ class FnTranslator:
                 return None
             if m in ("iter", "clone", "to_vec", "copied", "cloned", "into_boxed_slice") and not e[3]:
                 return self.pure(e[1], env)
-            if m == "max" and not e[3] and is_list(rt) and is_int(rt[2][0]) and not is_nat(rt[2][0]):
+            if m in ("max", "min") and not e[3] and is_list(rt) and is_int(rt[2][0]) and not is_nat(rt[2][0]):
                 r0 = self.pure(e[1], env)
-                return None if r0 is None else "(list_max_opt %s)" % r0
+                return None if r0 is None else "(list_%s_opt %s)" % (m, r0)
             if m == "chars" and is_str(rt):
                 return self.pure(e[1], env)
             if e[3] and e[3][0][0] == "closure" and len(e[3]) == 1 and len(e[3][0][1]) == 1:
